@@ -44,8 +44,14 @@ TRUSTED_BASE = [
     "picked), not part of it",
 ]
 ASSUMPTIONS = [
-    "positive theorems assume transport parameters never lower a flow-control value the connection already holds "
-    "(RFC 9000 7.4.1 for accepted 0-RTT); the complement is refuted with a witness (open known finding C06-F1)",
+    "as-is _parse_transport_parameters (op 6, trees without the repair of C06-F1): positive theorems assume transport "
+    "parameters never lower a flow-control value the connection already holds (RFC 9000 7.4.1 for accepted 0-RTT); the "
+    "complement is refuted with a witness (finding C06-F1).  Repaired function (op 18, fed when the probe finds "
+    "tls.early_data_accepted in the function): no assumption on the values when 0-RTT was accepted; when it was not, the "
+    "values are varints and no peer-initiated stream exists yet (checked by the driver on every scenario); restoring "
+    "from a ticket happens on a fresh connection",
+    "STREAMS_BLOCKED correctness is proved for states in which _unblock_streams has run since max_streams last changed "
+    "(from handshake completion on); WHEN the frame is sent (_streams_blocked_pending) is an input of the model",
     "frame-level theorems assume each emitted frame receives at most one delivery outcome (C08 callbacks_at_most_once)",
     "stream discarding (_streams.pop of finished streams) and re-creation of a discarded stream id are not modelled",
 ]
@@ -234,6 +240,12 @@ def run_scenario(case, fair=True):
             sync()
             if event == "packet_received":
                 R.framelists.append([data["frames"], 0])
+            elif event == "packet_sent":
+                # the STREAMS_BLOCKED step of _write_application (neither max_streams nor the blocked lists change between
+                # the step and this event, which is logged at the end of the same datagrams_to_send call)
+                for fr in data["frames"]:
+                    if fr.get("frame_type") == "streams_blocked":
+                        R.op("streams_blocked", [19, int(fr["stream_type"] == "unidirectional")], [8, 1, fr["limit"]])
             elif event == "parameters_set" and data.get("owner") == "remote":
                 if repaired:
                     # PEEK: tls.early_data_accepted (what the repaired function branches on; the same value is
@@ -279,12 +291,24 @@ def run_scenario(case, fair=True):
         holder["conn"] = conn
         orig_call = client.call
 
+        queue_bad = []       # violations of the service order (PEEK-based implementation oracle, see queue_order_check)
+        queue_stats = collections.Counter()
+
         def call(name, *a, **k):
             R.depth += 1
+            snap = None
+            if name == "datagrams_to_send":
+                # PEEK: _streams_queue and the highest offsets before the call
+                snap = ([st.stream_id for st in conn._streams_queue],
+                        {st.stream_id: st.sender.highest_offset for st in conn._streams_queue})
             try:
                 return orig_call(name, *a, **k)
             finally:
                 R.depth -= 1
+                if snap is not None:
+                    after = [st.stream_id for st in conn._streams_queue]                                  # PEEK
+                    hi = {st.stream_id: st.sender.highest_offset for st in conn._streams_queue}           # PEEK
+                    queue_order_check(snap[0], snap[1], after, hi, queue_bad, queue_stats)
         client.call = call
 
         # independent timeline for the oracle: every datagram the subject sends, with the number of datagrams
@@ -528,11 +552,38 @@ def run_scenario(case, fair=True):
             "client_addr": client.addr, "writes": dict(writes), "fins": set(fins), "killed": set(killed),
             "progress": progress, "closed": R.closed, "peer_closed": R.peer_closed, "handshake_ok": handshake_ok,
             "undecrypted": sum(1 for p in pair.observer.packets if p.direction == "c2s" and not p.decrypted and p.type != "padding"),
+            "queue_bad": queue_bad, "queue_stats": dict(queue_stats),
         }
         return {"tin": tin, "tout": tout, "names": R.names, "wire": wire, "api_errors": api_errors}
     finally:
         S.get_frame, S.get_reset_frame, S.on_data_delivery, S.on_reset_delivery, T.log_event = saved
         RV.get_stop_frame, RV.on_stop_sending_delivery = saved_rv
+
+
+def queue_order_check(before, hi_before, after, hi_after, bad, stats):
+    """Implementation oracle for the service order (statement of queue_rotation_fair, coq/props/C06.v), over labelled
+    peeks at _streams_queue around ONE datagrams_to_send call (any number of packets): a stream that stayed in the queue
+    and whose highest offset did not rise is never overtaken -- the streams ahead of it afterwards are exactly those
+    ahead of it before, minus the ones that were served with new data or discarded."""
+    aset = set(after)
+    served = {sid for sid in before if sid in aset and hi_after.get(sid, 0) > hi_before.get(sid, 0)}
+    stats["transmit_calls"] += 1
+    if served:
+        stats["transmit_calls_with_rotation"] += 1
+    if len(set(after)) != len(after) or not aset <= set(before):
+        bad.append("_streams_queue after a transmit is not a duplicate-free subset of the queue before: %r -> %r" % (before, after))
+        return
+    for s in before:
+        if s not in aset or s in served:
+            continue
+        exp = [x for x in before[:before.index(s)] if x in aset and x not in served]
+        got = after[:after.index(s)]
+        if got != exp:
+            bad.append("stream %d was not served, yet the streams ahead of it changed from %r to %r (served: %r)"
+                       % (s, before[:before.index(s)], got, sorted(served)))
+            return
+        if len(exp) < before.index(s):
+            stats["unserved_stream_moved_forward"] += 1
 
 
 _PNAMES = ["max_data", "max_stream_data_bidi_local", "max_stream_data_bidi_remote", "max_stream_data_uni",
@@ -606,6 +657,22 @@ def wire_oracle(w, stats=None):
                 continue
             early = p.type == "0rtt"
             for f in p.frames:
+                if f.name in ("DATA_BLOCKED", "STREAM_DATA_BLOCKED"):
+                    stats["data_blocked_frames"] += 1        # aioquic has no code that writes them
+                if f.name in ("STREAMS_BLOCKED_BIDI", "STREAMS_BLOCKED_UNI"):
+                    # sent only when really blocked at that limit, and it carries the limit in force
+                    uni = f.name.endswith("UNI")
+                    stats["streams_blocked_frames_judged"] += 1
+                    lim_now = (Rm[5] if uni else Rm[4]) if early else ms[1 if uni else 0]
+                    sigb = {"frame": f.name, "zero_rtt_packet": early, "after_zero_rtt_lowered": lowered and not early}
+                    if f.fields["limit"] != lim_now:
+                        bad.append(("%s carries limit %d but the limit in force is %d" % (f.name, f.fields["limit"], lim_now),
+                                    dict(sigb, rule="blocked_frame_limit")))
+                    tried = [sid for sid in set(w["writes"]) | set(w["killed"])
+                             if sid % 2 == 0 and bool(sid & 2) == uni and sid // 4 >= f.fields["limit"]]
+                    if not tried:
+                        bad.append(("%s (limit %d) although the application never used a stream beyond that limit"
+                                    % (f.name, f.fields["limit"]), dict(sigb, rule="blocked_frame_spurious")))
                 if f.name not in ("STREAM", "RESET_STREAM", "STOP_SENDING", "MAX_STREAM_DATA", "STREAM_DATA_BLOCKED"):
                     continue
                 sid = f.fields["stream_id"]
@@ -671,6 +738,10 @@ def wire_oracle(w, stats=None):
         stats["scenarios_with_straddling_frame"] += 1
     if bound_after_straddle:
         stats["scenarios_straddle_then_connection_limit_reached"] += 1
+    for what in w.get("queue_bad", []):
+        bad.append((what, {"rule": "queue_order"}))
+    for k, v in (w.get("queue_stats") or {}).items():
+        stats["queue_" + k] += v
     if w["undecrypted"]:
         bad.append(("observer could not decrypt %d subject packets" % w["undecrypted"], {"rule": "observer"}))
     if w["progress"]:
@@ -1233,6 +1304,7 @@ def run(ctx):
         "final fair phase; distinct = distinct "
         "model op sequence, non-trivial = at least one STREAM frame call and one delivery outcome or MAX_* frame",
         {"known_finding_scenarios": dict(KNOWN_HITS), "wire_oracle_measured": dict(ORACLE_STATS),
+         "c06_f1_repair_in_tree": repaired_f1(),
          "exhaustive_small_scope": False})
 
 
